@@ -118,6 +118,7 @@ def run(cx):
     end_of_file(cx)
     tables(cx, cn)
     absolute_names(cx)
+    numeric_range(cx)
 
 
 # ------------------------------------------------------------------------------------------------ exemption facts
@@ -496,6 +497,24 @@ def tables(cx, cn):
             cx.check('C20.T2', ok, p, s.key(), 'embedded-name-resolved-against-origin',
                      'a domain name inside RDATA is parsed without the zone origin: a relative name stays relative instead of being completed with $ORIGIN (RFC 1035 5.1)', s.loc)
     cx.floor('C20.T2', nn, 10, 'domain names parsed inside from_tokens parsers')
+
+
+def numeric_range(cx):
+    """S4: parse_ttl is the number reader of the zone-file parser - $TTL, record TTLs and every numeric SOA field including the
+    SERIAL go through it.  A valid file may state any value a u32 holds (a serial in the upper half of the number space, RFC 1982):
+    the only failures of parse_ttl are syntax (empty, a character that is neither digit nor unit) and u32 overflow of the
+    arithmetic; no comparison of the accumulated value with a limit decides an error."""
+    f = cx.fn('C20.S4', P + 'serialize::txt::parse_ttl')
+    if not f:
+        return
+    allp = sorted({shorten(p_) for bb in range(len(f.blocks)) for ps in f.edge_props(bb).values() for p_ in ps})
+    lim = [p_ for p_ in allp if re.match(r'^!?(lt|le)\(', p_) and re.search(r'checked_add|checked_mul|num::from_str', p_)]
+    cx.check('C20.S4', not lim, f.path, 'guards', 'no-range-limit-on-the-parsed-value(every u32 is accepted)', '; '.join(x[:120] for x in lim))
+    cx.floor('C20.S4', sum(1 for p_ in allp if 'checked_add' in p_ or 'checked_mul' in p_), 2, 'overflow-checked arithmetic guards in parse_ttl')
+    soa = cx.fn('C20.S4', P + 'rr::rdata::soa::SOA::from_tokens')
+    if soa:
+        n_ = sum(1 for bi_, c_, t_ in cx.prog.calls_of(soa) if 'parse_ttl' in shorten(soa.term_call(t_, 0)).split('(', 1)[1][:400] and 'and_then' in shorten(soa.term_call(t_, 0)).split('(', 1)[0])
+        cx.check('C20.S4', n_ >= 1, soa.path, 'calls', 'soa-numeric-fields-read-by-parse_ttl', str(n_))
 
 
 def absolute_names(cx):
